@@ -430,6 +430,9 @@ class Interp:
         if not isinstance(cond, SBool):
             return bool(cond)
         e = cond.e
+        if getattr(self, '_fold_probe_names', None):
+            if _mentions(e, self._fold_probe_names):
+                raise Unsupported('branch on an accumulator inside a loop over an abstracted list')
         pos = len(self.trace)
         self.decides += 1
         if pos < len(self.prefix):
@@ -1172,7 +1175,9 @@ class Interp:
             return self.cut_for(s, fr, itv, spec, key)
         if isinstance(itv, Obj):
             itv = self.make_iter(itv)
-        if isinstance(itv, (SRange, SSeq, SBits, SRepeat, CountedList, OpaqueSeq, OpaqueIter, SLazySeq)):
+        if isinstance(itv, CountedList):
+            return self.fold_counted(s, fr, itv)
+        if isinstance(itv, (SRange, SSeq, SBits, SRepeat, OpaqueSeq, OpaqueIter, SLazySeq)):
             raise Unsupported('loop %r over symbolic-length iterable without invariant' % (key,))
         it = self.make_iter(itv)
         while True:
@@ -1193,6 +1198,57 @@ class Interp:
             return sig
         if s.orelse:
             return self.exec_block(s.orelse, fr)
+        return None
+
+    def fold_counted(self, s, fr, cl):
+        """for x in <list abstracted by its multiset>: body.  Supported when the body is an order-insensitive additive fold: for every
+        value v the body, started from arbitrary accumulator values, changes each integer accumulator by an amount that does not depend
+        on the accumulators, takes no branch on symbolic data and leaves the loop normally; then  acc_after = acc_before + count(v) * delta(v).
+        Anything else is unsupported (undecided), never guessed."""
+        if s.orelse:
+            raise Unsupported('for/else over abstracted list')
+        names = sorted(set(extract.assigned_names(s.body)))
+        targets = set(extract.assigned_names([ast.Assign(targets=[s.target], value=ast.Constant(value=None))]))
+        accs = [n for n in names if n not in targets]
+        for n in accs:
+            if n not in fr.locals or isinstance(fr.locals[n], bool) or not isinstance(fr.locals[n], (int, SInt)):
+                raise Unsupported('loop over abstracted list assigns %r which is not an integer accumulator' % n)
+        total = {n: fr.locals[n] for n in accs}
+        for v, cnt in cl.counts.items():
+            if isinstance(cnt, int) and cnt <= 0:
+                continue
+            probe = {n: fresh_int('acc0_' + n) for n in accs}
+            for n in accs:
+                fr.locals[n] = probe[n]
+            self.assign(s.target, v, fr)
+            # a branch on the accumulators would make iterations differ: forbidden (branches on loop-invariant symbols only split the path)
+            saved_probe = getattr(self, '_fold_probe_names', None)
+            self._fold_probe_names = (saved_probe or set()) | {probe[n].e.decl().name() for n in accs}
+            try:
+                sig = self.exec_block(s.body, fr)
+            except PyRaise:
+                # the body raises for this value: it raises iff such an element exists
+                self._fold_probe_names = saved_probe
+                if self.decide(cnt > 0):
+                    raise
+                continue
+            finally:
+                self._fold_probe_names = saved_probe
+            if sig is not None and sig is not _CONTINUE:
+                raise Unsupported('break / return inside a loop over an abstracted list')
+            patoms = set()
+            for n in accs:
+                patoms |= set(probe[n].lin)
+            for n in accs:
+                delta = fr.locals[n] - probe[n]
+                if isinstance(delta, SInt) and (set(delta.lin) & patoms):
+                    raise Unsupported('loop over abstracted list: update of %r is not an additive fold' % n)
+                c = cnt if isinstance(cnt, int) else s_max(cnt, 0)
+                total[n] = total[n] + c * delta
+        for n in accs:
+            fr.locals[n] = total[n]
+        for t in targets:
+            fr.locals[t] = _Havocked(t)
         return None
 
     def make_iter(self, v):
@@ -2013,6 +2069,24 @@ class Interp:
             else:
                 kwargs[kw.arg] = self.eval(kw.value, fr)
         return self.call_function(f, tuple(args), kwargs)
+
+
+def _mentions(e, names):
+    """does the z3 term mention an uninterpreted constant with one of the names"""
+    seen = set()
+    stack = [e]
+    while stack:
+        t = stack.pop()
+        i = t.get_id()
+        if i in seen:
+            continue
+        seen.add(i)
+        if z3.is_const(t) and t.decl().kind() == z3.Z3_OP_UNINTERPRETED:
+            if t.decl().name() in names:
+                return True
+        else:
+            stack.extend(t.children())
+    return False
 
 
 class _Havocked:
